@@ -400,7 +400,7 @@ func sameResource(e pnftEffect, lk *Term, ids []*Term) (bool, string) {
 		}
 		return false, "the class written does not derive from the denom whose owner was compared: " + fmt.Sprint(e.Term)
 	case "raw:Delete":
-		if e.Key != nil && e.Key.Op == "call" && len(e.Key.Args) == 1 && len(ids) == 1 && e.Key.Args[0].Eq(ids[0]) {
+		if id := rawKeyID(e.Key); id != nil && len(ids) == 1 && id.Eq(ids[0]) {
 			return true, "deleted key = " + e.Key.Name + "(" + ids[0].String() + ")"
 		}
 		return false, fmt.Sprintf("deleted key %v is not built from the id %v whose owner was compared", e.Key, ids)
@@ -612,4 +612,25 @@ func rawClassKeyBuilderShape(fn *ssa.Function) (bool, string) {
 func isConvOf(v ssa.Value, x ssa.Value) bool {
 	c, ok := v.(*ssa.Convert)
 	return ok && c.X == x
+}
+
+// rawKeyID: the id a hand-built x/nft class key is made of — keyBuilder(id), or the builder inlined: append(<prefix variable>, id...).
+func rawKeyID(key *Term) *Term {
+	if key == nil || key.Op != "call" {
+		return nil
+	}
+	if key.Name == "builtin:append" {
+		if len(key.Args) == 2 && (key.Args[0].Op == "gval" || key.Args[0].Op == "global") {
+			id := key.Args[1]
+			if id.Op == "conv" && len(id.Args) == 1 {
+				id = id.Args[0]
+			}
+			return id
+		}
+		return nil
+	}
+	if len(key.Args) == 1 {
+		return key.Args[0]
+	}
+	return nil
 }
